@@ -250,15 +250,19 @@ func evTokenFor(chain string) string {
 }
 
 func init() {
-	Register("C17", BFSRunner(func(tier string) (Spec, engine.Config, []string) {
-		cfg := engine.Config{MaxDepth: 3, Deadline: 70 * time.Second, ReplayLeaf: 30}
+	Register("C17", MultiRunner(func(tier string) ([]MultiCase, []string) {
+		d2, d1, dl := 3, 4, 45*time.Second
 		if tier == "thorough" {
-			cfg = engine.Config{MaxDepth: 5, Deadline: 20 * time.Minute, ReplayLeaf: 200}
+			d2, d1, dl = 4, 6, 10*time.Minute
 		}
-		return NewC17(tier), cfg, []string{
-			"validators A, B (bonded), C (unknown to staking); orchestrator accounts o1, o2 and B's own account; external keys e1, e2; chains ethereum, bsc; signer sequences are bumped like the ante handler does (persisting on failure)",
-			"that the transaction is signed by the account MsgDelegateKeys.GetSigners names is enforced by the SDK ante handler; the check verifies GetSigners names exactly the validator's own account",
-			"only-if direction: a successful registration must carry a valid signature of the external key over (validator, sequence) and keep the registry one-to-one; rejecting a valid one is not a violation",
-		}
+		two := NewC17(tier)
+		one := NewC17(tier)
+		one.Chains = []string{"ethereum"} // longer re-registration sequences on a single chain
+		return []MultiCase{{Name: "chains ethereum, bsc", Spec: two, Cfg: engine.Config{MaxDepth: d2, Deadline: dl, ReplayLeaf: 30}},
+				{Name: "one chain, longer sequences", Spec: one, Cfg: engine.Config{MaxDepth: d1, Deadline: dl, ReplayLeaf: 30}}}, []string{
+				"validators A, B (bonded), C (unknown to staking); orchestrator accounts o1, o2 and B's own account; external keys e1, e2; chains ethereum, bsc; signer sequences are bumped like the ante handler does (persisting on failure)",
+				"that the transaction is signed by the account MsgDelegateKeys.GetSigners names is enforced by the SDK ante handler; the check verifies GetSigners names exactly the validator's own account",
+				"only-if direction: a successful registration must carry a valid signature of the external key over (validator, sequence) and keep the registry one-to-one; rejecting a valid one is not a violation",
+			}
 	}))
 }
